@@ -108,6 +108,9 @@ def storm(ctx):
     info, _ = ta_common.run_driver(ctx, [drv, "storm", "-g", "16", "-n", str(n), "-sample", str(sample), "-out", tf,
                                          "-seed", str(ctx.seed)], "storm", timeout=900)
     res = ta_common.validate_ta(ctx, tf, KEYS["S3"], "storm g=16 n=%d sample=%d" % (n, sample), ta_common.C08_KINDS)
+    if info.get("panics"):
+        ctx.cov.setdefault("panics_recovered", 0)
+        ctx.cov["panics_recovered"] += info["panics"]
     ctx.cov["storm"] = info
     ctx.cov["response_salts"] = ctx.cov.get("response_salts", 0) + res["mass"]
     ctx.cov["server_replays_refused"] = ctx.cov.get("server_replays_refused", 0) + info.get("reflections", 0) \
@@ -135,8 +138,16 @@ def fault(ctx):
     ctx.cov["distinct_nontrivial"] += 1
 
 
-def run(ctx):
-    exhaustive(ctx)
+def stage(ctx, name, f):
+    """A stage whose driver process was killed by a crash in the code under test has reported that as a violation
+    (ta_common.report_crash); the remaining stages still run."""
+    try:
+        f()
+    except ta_common.DriverCrashed:
+        ctx.cov["skipped"].append("%s: the driver process was killed by a crash in the code under test (reported)" % name)
+
+
+def behaviour_stage(ctx):
     n = 120 if ctx.quick else 1200
     plans = [("Gen_TcpAuth.cfg", "Q", 0), ("Gen_TcpAuth.cfg", "Q", 50), ("Gen_TcpAuthX.cfg", "X", 300)]
     for i, (cfg, keyset, pad) in enumerate(plans):
@@ -149,18 +160,26 @@ def run(ctx):
         if i == 0:
             ctx.sample({"behaviour": behs[0]})
             ctx.sample({"trace_head": rows[:14]})
-    storm(ctx)
-    fault(ctx)
-    # freshness at scale
+
+
+def mass(ctx):
     drv = ta_common.driver(ctx)
     nconn = 3000 if ctx.quick else 100000
     tf = os.path.join(ctx.scratch, "mass.ndjson")
     info, _ = ta_common.run_driver(ctx, [drv, "salts", "-n", str(nconn), "-par", "16", "-out", tf, "-seed", str(ctx.seed)],
                                    "salts", timeout=1800)
     res = ta_common.validate_ta(ctx, tf, KEYS["Q"], "salts n=%d" % nconn, ta_common.C08_KINDS)
-    ctx.cov["response_salts"] += res["mass"]
+    ctx.cov["response_salts"] = ctx.cov.get("response_salts", 0) + res["mass"]
     ctx.cov["mass_run"] = info
     ctx.cov["evaluations"] += 1
+
+
+def run(ctx):
+    exhaustive(ctx)
+    stage(ctx, "behaviours", lambda: behaviour_stage(ctx))
+    stage(ctx, "storm", lambda: storm(ctx))
+    stage(ctx, "fault", lambda: fault(ctx))
+    stage(ctx, "salts", lambda: mass(ctx))   # freshness at scale
     vlib.write_evidence(ctx, "model_checking",
                         "TLC enumerates all interleavings of <= 3-4 connections with every salt choice and replay-cache "
                         "mode; simulated behaviours (distinct as action sequences) are executed on the real authenticator + "
